@@ -393,6 +393,8 @@ class Registry:
             from .extmodels import GhostDev
 
             return isinstance(v, GhostDev)
+        if isinstance(typ, api.Alias):
+            return True
         if typ is int:
             return is_int_like(v)
         if typ is bool:
